@@ -153,7 +153,8 @@ class Universe:
                 obj = getattr(obj, p)
             return obj
 
-        for old, new in self.entries:
+        # shorter NEW first: a NEW that is an ancestor of another NEW must be bound before it
+        for old, new in sorted(self.entries, key=lambda e: e[1].count(".")):
             obj = real.get(old) or resolve(old)
             if obj is None:
                 continue
@@ -276,16 +277,30 @@ def domain_problems(text, entries):
             imp_lines.update(range(node.lineno, node.end_lineno + 1))
     imports = toplevel_imports(text) + [(f, l) for f, l, _ in nested_imports(text)]
     # line of the statement that makes each binding (a reference is served by bindings made above it)
+    # (a function-level import serves only the rest of its own function)
     bind_line = {}
-    for node in ast.walk(tree):
-        if isinstance(node, ast.Import):
-            for a in node.names:
-                bind_line.setdefault((a.name, a.asname or a.name), node.lineno)
-        elif isinstance(node, ast.ImportFrom):
-            mod = "." * node.level + (node.module or "")
-            for a in node.names:
-                full = (mod + a.name) if (mod.endswith(".") or not mod) else (mod + "." + a.name)
-                bind_line.setdefault((full, a.asname or a.name), node.lineno)
+
+    def visit(node, scope):
+        for ch in ast.iter_child_nodes(node):
+            sc = scope
+            if isinstance(ch, (ast.FunctionDef, ast.AsyncFunctionDef, ast.Lambda)):
+                sc = (ch.lineno, ch.end_lineno)
+            if isinstance(ch, ast.Import):
+                for a in ch.names:
+                    bind_line.setdefault((a.name, a.asname or a.name), []).append((ch.lineno, scope))
+            elif isinstance(ch, ast.ImportFrom):
+                mod = "." * ch.level + (ch.module or "")
+                for a in ch.names:
+                    full = (mod + a.name) if (mod.endswith(".") or not mod) else (mod + "." + a.name)
+                    bind_line.setdefault((full, a.asname or a.name), []).append((ch.lineno, scope))
+            visit(ch, sc)
+    visit(tree, None)
+
+    def serves(key, line):
+        for bl, scope in bind_line.get(key, []):
+            if bl < line and (scope is None or scope[0] <= line <= scope[1]):
+                return True
+        return False
     locs = [l for _, l in imports]
     # locals distinct (by first component for single names vs plain imports)
     singles = [l for l in locs if "." not in l]
@@ -338,8 +353,7 @@ def domain_problems(text, entries):
                         ok = False
                         for f, l in imports:
                             lc = l.split(".")
-                            if chain[:len(lc)] == lc and under(l, o) and under(f, o) \
-                                    and bind_line.get((f, l), 10 ** 9) < t.start[0]:
+                            if chain[:len(lc)] == lc and under(l, o) and under(f, o) and serves((f, l), t.start[0]):
                                 ok = True
                         if not ok:
                             probs.append("OLD word in the body is not a reference to an import of OLD")
@@ -404,6 +418,11 @@ def char_traps(path):
     out = [par + last + "x", par + last + "_", par + last + "2"]
     if len(last) > 2:
         out.append(par + last[:-1])
+    out.append("x" + path)                       # OLD is a character *suffix* of the first component
+    if last.capitalize() != last:
+        out.append(par + last.capitalize())      # differs by case only
+    if "." in path:
+        out.append(path.replace(".", "_"))       # the dot of OLD read as "any character"
     return out
 
 
@@ -470,7 +489,8 @@ def gen_program(rng, mods, entries, nested_imports=False):
     members = [m + "." + x for m in modpaths for x in mods[m]]
     cands = modpaths + members
     und = [c for c in cands if any(under(c, o) for o in olds)]
-    trap = [c for c in cands if c not in und and any(c.startswith(o) or o.startswith(c) for o in olds)]
+    trap = [c for c in cands if c not in und and any(
+        o in c or c in o or c.lower().startswith(o.lower()) or o.replace(".", "_") in c for o in olds)]
     imports = []      # (target, form, local)
     singles, plains_first = set(), set()
     for _ in range(rng.randint(1, 6)):
@@ -591,13 +611,13 @@ def gen_program(rng, mods, entries, nested_imports=False):
             dest.append("print(%s)" % e)
         elif r < 0.45:
             v = rng.choice(VARS)
-            dest.append("%s%d = %s\nprint(%s%d)" % (v, k, e, v, k))
+            dest.append("h_%s%d = %s\nprint(h_%s%d)" % (v, k, e, v, k))
         elif r < 0.58:
-            dest.append("def fn%d(p=%s):\n    return p, %s\nprint(fn%d())" % (k, e, ref_of(tgt, local), k))
+            dest.append("def h_fn%d(p=%s):\n    return p, %s\nprint(h_fn%d())" % (k, e, ref_of(tgt, local), k))
         elif r < 0.66:
             dest.append("if True:\n    print(%s)" % e)
         elif r < 0.74:
-            dest.append("class C%d:\n    attr = %s\n    def meth(self):\n        return %s\nprint(C%d.attr, C%d().meth())"
+            dest.append("class H_C%d:\n    attr = %s\n    def meth(self):\n        return %s\nprint(H_C%d.attr, H_C%d().meth())"
                         % (k, e, ref_of(tgt, local), k, k))
         elif r < 0.82:
             dest.append("print([%s, %s])" % (e, ref_of(tgt, local)))
@@ -635,14 +655,14 @@ def gen_program(rng, mods, entries, nested_imports=False):
             else:
                 local = "nl%d" % k
                 line = "from %s import %s as %s" % (tgt.rsplit(".", 1)[0], tgt.rsplit(".", 1)[1], local)
-            body2.append("def gn%d():\n    %s\n    return %s\nprint(gn%d())" % (k, line, ref_of(tgt, local), k))
+            body2.append("def h_gn%d():\n    %s\n    return %s\nprint(h_gn%d())" % (k, line, ref_of(tgt, local), k))
     rng.shuffle(body1)
     rng.shuffle(body2)
     head = rng.choice(["", "", "# module header\n", '"""doc"""\n', "#!/usr/bin/env python\n\n"])
     sep = rng.choice(["\n", "\n\n", "\n\n\n"])
     parts = [head + "\n".join(lines_top) + ("\n" if lines_top else "")]
     if body1 or lines_mid:
-        parts.append(sep + "\n".join(body1 or ["res0 = 0"]) + "\n")
+        parts.append(sep + "\n".join(body1 or ["h_res0 = 0"]) + "\n")
         if lines_mid:
             parts.append(rng.choice(["", "\n"]) + "\n".join(lines_mid) + "\n")
     parts.append(sep + "\n".join(body2 or ["print('done')"]) + "\n")
@@ -680,6 +700,15 @@ def gen_odomain_case(rng, mode=None):
 
 def gen_konly_case(rng):
     """Arbitrary maps (chains, swaps, OLD prefix of NEW, relative names) x small texts: correspondence only."""
+    if rng.random() < 0.12:
+        # two imports whose local names collide only after the rename (shadow filter of the rewritten block)
+        k, v = rng.sample(["a", "b", "c", "x"], 2)
+        other = rng.choice(["m", "m.n", "ab"])
+        lines = ["from %s import %s" % (k, k), "import %s as %s" % (other, v) if rng.random() < 0.6
+                 else "from %s import %s" % (other, v)]
+        rng.shuffle(lines)
+        return dict(map=[[k, v]], text="\n".join(lines) + "\n\nprint(%s, %s)\n" % (k, v), mods={},
+                    params=gen_params(rng), mode="transform", odomain=False)
     names = ["a", "b", "c", "ab", "a_", "x", "a.b", "a.b.c", "a.bc", "b.a", "x.y", "x.a", "c.a.b", "a.a", "b.c"]
     n = rng.randint(1, 4)
     keys = rng.sample(names, n)
